@@ -48,8 +48,10 @@ def _string_constants(fn):
     return out
 
 
-def ctx_table(cls, desc):
-    """Tabulate cls.header_name_to_field_name_with_context.  Candidate headers: every string
+def ctx_table(cls, desc, probe_strip=True):
+    """probe_strip=False (harness only, after the probe has refused): the tables without the verdict on stripping
+    (sw_strip = None), so that the oracle can still run on a tree the translator refuses.
+    Tabulate cls.header_name_to_field_name_with_context.  Candidate headers: every string
     constant of the function's source, every field name and header name of the model, the
     documented short headers.  A header on which the function raises KeyError with an empty
     row is the row-dependent one; the KeyError names the column it reads; that column is then
@@ -108,7 +110,7 @@ def ctx_table(cls, desc):
         r = fn(h, {sw_column: some})
         if r != basic.get(h, h):
             _refuse(f"header {h!r} is re-keyed differently depending on the row")
-    sw_strip = _probe_strip(cls, fn, sw_header, sw_column, table)
+    sw_strip = _probe_strip(cls, fn, sw_header, sw_column, table) if probe_strip else None
     return dict(basic=basic, sw_header=sw_header, sw_column=sw_column, sw_table=table, sw_strip=sw_strip), cands
 
 
